@@ -258,12 +258,19 @@ type GenomeSpec struct {
 	OutToOut bool
 	// NoInputsSometimes: one genome in eight has bias nodes as its only sensors (zero input neurons)
 	NoInputsSometimes bool
+	// PermuteTraitIds: in one genome of three with two or more traits the ids are 1..n in another order than the list
+	// (1,3,2 as in the repository's own test genome). Only for scenarios without crossover: the mating code indexes
+	// traits by id offset, which C01 and C04 exclude by asking for consecutive ids.
+	PermuteTraitIds bool
 }
 
 // BuildGenome hand-builds a well-formed non-modular genome: sensors first (ascending ids), consecutive trait ids from 1,
 // at least one gene, innovation numbers 1..k ascending.
 func BuildGenome(t *Tape, spec GenomeSpec) *genetics.Genome {
 	nTraits := t.Range("nTraits", 1, 3)
+	if spec.PermuteTraitIds {
+		nTraits = t.Range("nTraitsPermuted", 2, 5)
+	}
 	traits := make([]*neat.Trait, nTraits)
 	for i := range traits {
 		tr := neat.NewTrait()
@@ -275,6 +282,28 @@ func BuildGenome(t *Tape, spec GenomeSpec) *genetics.Genome {
 			}
 		}
 		traits[i] = tr
+	}
+	if spec.PermuteTraitIds && nTraits >= 2 && t.Chance("permuteTraitIds", 2, 3) {
+		// a tape-drawn permutation of the ids 1..n (Fisher-Yates); the list order stays. A permutation that happens to be
+		// the identity gets its last two ids swapped.
+		ids := make([]int, nTraits)
+		for i := range ids {
+			ids[i] = i + 1
+		}
+		same := true
+		for i := nTraits - 1; i > 0; i-- {
+			j := t.Draw("traitIdPerm", i+1)
+			ids[i], ids[j] = ids[j], ids[i]
+		}
+		for i := range ids {
+			same = same && ids[i] == i+1
+		}
+		if same {
+			ids[nTraits-1], ids[nTraits-2] = ids[nTraits-2], ids[nTraits-1]
+		}
+		for i, tr := range traits {
+			tr.Id = ids[i]
+		}
 	}
 	nIn := t.Range("nIn", 1, 4)
 	nBias := t.Pick("nBias", 3, 5, 1)
